@@ -4,7 +4,7 @@
   Property theorems only; helper lemmas are in SA.Proofs.DnsWire / SA.Proofs.DnsReq.
 
   Quantifiers: every request (`Req`: version, options, packet, downstream-codec probe, upstream pattern
-  probe, fragment-size probe) with fields in range (`ReqOk`: user id < 1296 = Gen.maxUserId, sequence
+  probe, fragment-size probe) with fields in range (`ReqOk`: user id < 1296 = Gen.C09.maxUserId, sequence
   and ack numbers < 65536, fragment sizes < 2^32 (2^32-1 is the wire's "absent" sentinel), codec
   letters from the registry, payload any byte string of any length, probe patterns without '.' and
   '\'), any three name-safe cache characters, every tunnel domain made of labels that need no escaping,
@@ -64,7 +64,7 @@ theorem C09_labels_ok (b32 up : Codec) (sb : b32.Safe) (su : up.Safe)
       cases l with
       | nil => exact absurd rfl this.1
       | cons _ _ => simp
-  · have : SA.Gen.hostnameMaxLen - SA.Gen.prepareSlack ≤ 253 := by decide
+  · have : SA.Gen.hostnameMaxLen - SA.Gen.C09.prepareSlack ≤ 253 := by decide
     omega
   · unfold wireOctets
     rw [← dotted_length, ← hhost]
